@@ -458,6 +458,14 @@ macro_rules! construct {
                 $front = Ok($front?);
             }
             $(let $fields = $fields.eval(args);)*
+            // output of a nested command (its help or its failure) is final and takes
+            // priority over problems with fields that go earlier
+            $(let $fields = match $fields {
+                ::std::result::Result::Err(err) if err.is_final() => {
+                    return ::std::result::Result::Err(err)
+                }
+                other => other,
+            };)*
             let $front = $front?;
             $(let $fields = $fields?;)*
 
